@@ -567,6 +567,80 @@ def check_condition_kinds(acc):
         core.unload_source(ns)
 
 
+# ---------------------------------------------------------------------------------------------
+# (f) conditions written in a class body that name private (name-mangled) attributes
+
+PRIVATE_SRC = '''\
+import icontract
+class MyErr(Exception): pass
+class K:
+    __limit = 5
+    def __init__(self, c, items):
+        self.__c = c
+        self.__items = items
+    @icontract.require(lambda self: self.__c > K.__limit)
+    def pre_default(self):
+        return 1
+    @icontract.require(lambda self: self.__c > 5, error=MyErr)
+    def pre_class(self):
+        return 1
+    @icontract.ensure(lambda self, result: result < self.__c and len(self.__items) > 0)
+    def post_default(self):
+        return 1
+    @icontract.require(lambda self: all(v < self.__c for v in self.__items))
+    def pre_all(self):
+        return 1
+    @icontract.require(lambda self, __x: __x > self.__c)
+    def pre_private_parameter(self, __x):
+        return 1
+class _Hidden:
+    def __init__(self):
+        self.__v = 0
+    @icontract.require(lambda self: self.__v > 0)
+    def m(self):
+        return 1
+'''
+PRIVATE_CASES = [
+    ("pre_default", lambda ns: ns["K"](1, []).pre_default(), None, ["self.__c", "K.__limit"]),
+    ("pre_class", lambda ns: ns["K"](1, []).pre_class(), "MyErr", ["self.__c"]),
+    ("post_default", lambda ns: ns["K"](0, [1]).post_default(), None, ["self.__c"]),
+    ("pre_all", lambda ns: ns["K"](2, [1, 7]).pre_all(), None, ["self.__c", "self.__items"]),
+    ("pre_private_parameter", lambda ns: ns["K"](9, []).pre_private_parameter(3), None, ["self.__c"]),
+    ("class_with_leading_underscore", lambda ns: ns["_Hidden"]().m(), None, ["self.__v"]),
+]
+
+
+def check_private_names(acc):
+    import icontract
+
+    ns = core.load_source(PRIVATE_SRC, "c07p")
+    try:
+        for name, thunk, err, must_show in PRIVATE_CASES:
+            def go():
+                try:
+                    return ("ret", thunk(ns))
+                except BaseException as e:  # noqa
+                    return ("exc", e)
+            out = core.fresh_ctx_run(go)
+            want_cls = icontract.ViolationError if err is None else ns[err]
+            acc.case(("private", name), True, 1, out[0] if out[0] != "exc" else type(out[1]).__name__)
+            bad = None
+            if out[0] != "exc" or type(out[1]) is not want_cls:
+                bad = ("violation_replaced_by_other_exception", "expected {} got {!r} (cause {!r})".format(
+                    want_cls.__name__, out[1], getattr(out[1], "__cause__", None)))
+            else:
+                missing = [t for t in must_show if (t + " was ") not in str(out[1])]
+                if missing and err is None:
+                    bad = ("private_value_not_listed", "the message does not list {}: {!r}".format(missing, str(out[1])))
+            if bad:
+                acc.violation(core.Violation(PROP, bad[0], {"part": "private_names", "case": name},
+                                             "condition naming a private attribute in a class body ({}): {}".format(name, bad[1]),
+                                             spec={"part": "private"}, script=PRIVATE_SRC))
+        acc.sample({"part": "private_names", "cases": [c[0] for c in PRIVATE_CASES]}, cap=1)
+    finally:
+        core.unload_source(ns)
+
+
 def work(args):
     import warnings
     warnings.simplefilter("ignore", SyntaxWarning)
@@ -583,6 +657,8 @@ def work(args):
             check_reload(acc)
         elif kind == "kinds":
             check_condition_kinds(acc)
+        elif kind == "private":
+            check_private_names(acc)
         else:
             for case in payload:
                 check_layout(case, acc, lay_by_name)
@@ -597,6 +673,7 @@ def run(tier, t0):
     items.append(("guards", None))
     items.append(("reload", None))
     items.append(("kinds", None))
+    items.append(("private", None))
     lc = layout_cases(tier)
     items += [("layout", lc[i:i + 40]) for i in range(0, len(lc), 40)]
     tot = core.merge(core.pmap(work, core.rotate(items)))
@@ -614,7 +691,8 @@ def run(tier, t0):
              "each violated after loading: the message carries the text of the version just loaded; "
              "(e) conditions given as named function, bound/static/class method, callable object, functools.partial (keyword, positional, nested, of a "
              "callable object) x require/ensure x default error/error class x holds/falsy: a falsy condition surfaces as the configured error "
-             "and the message carries no object address; "
+             "and the message carries no object address; (f) six conditions written in a class body that name private (name-mangled) attributes, "
+             "class attributes and parameters: the violation surfaces as the configured error and the private values are listed; "
              "non-trivial = every falsifying case".format(len(conds), len(GUARDS), len(lc)),
         assumptions=["conditions are written as lambdas inside a decorator (the supported form)"],
         bounds={"conditions": len(conds), "guards": len(GUARDS), "layout_cases": len(lc)},
@@ -632,6 +710,8 @@ def replay(path):
         check_reload(acc)
     elif data["part"] == "kinds":
         check_condition_kinds(acc)
+    elif data["part"] == "private":
+        check_private_names(acc)
     else:
         idx = {"require": 0, "ensure": 7, "invariant": 9}[data["role"]]
         check_batch_a([(idx, ("?", data["cond"], 0, data["cond"]))], acc, expr.valuations())
